@@ -652,7 +652,7 @@ func (fd *Client) TransactWriteItems(ctx context.Context, input *dynamodb.Transa
 	defer fd.mu.Unlock()
 
 	if fd.forceFailureErr != nil {
-		return nil, ErrForcedFailure
+		return nil, fd.forceFailureErr
 	}
 
 	//TODO: Implement transact write
